@@ -1148,11 +1148,16 @@ def run_phases(res, phases):
     subs = [core.Result(res.pid, res.tier, res.seed) for _ in phases]
     errs = [None] * len(phases)
 
+    import time
+    walls = {}
+
     def work(i):
+        t0 = time.time()
         try:
             phases[i][1](subs[i])
         except BaseException as exc:      # re-raised below, after the others have finished
             errs[i] = exc
+        walls[phases[i][0]] = round(time.time() - t0, 1)
     ths = [threading.Thread(target=work, args=(i,), name=phases[i][0]) for i in range(len(phases))]
     for t in ths:
         t.start()
@@ -1165,6 +1170,7 @@ def run_phases(res, phases):
         c = sub.cov
         res.add_cov(evaluations=c['evaluations'], distinct=c['distinct_nontrivial'], traces=c['traces_validated_against_impl'],
                     samples=c['samples'], rule=c['rule'] or None, **{k: v for k, v in c.items() if k not in BASE_COV_KEYS})
+    res.cov['phase_wall_s'] = walls
     for e in errs:
         if e is not None:
             raise e
